@@ -1,6 +1,11 @@
 #!/usr/bin/env python3
-"""Offline setup: build iref-core's third-party dependencies with Verus' pinned toolchain (cache)."""
+"""Offline setup: build iref-core's third-party dependencies with Verus' pinned toolchain (cache), and forget which tree
+the replay driver / Kani harness crate were last built from (the next check then recompiles iref-core for sure)."""
 import os, sys
 sys.path.insert(0, os.path.dirname(os.path.abspath(__file__)))
 import engine
+for slot in ("replay-build", "kani-build"):
+    p = os.path.join(engine.CACHE, slot, "built.hash")
+    if os.path.exists(p):
+        os.remove(p)
 print("deps:", engine.deps_dir())
